@@ -391,7 +391,9 @@ typename splinetable<Alloc>::template evaluator_type<Float>
 splinetable<Alloc>::get_evaluator() const{
 	evaluator_type<Float> eval(*this);
 	
-	uint32_t constOrder = order[0];
+	//an empty table has no orders to look at; it gets the generic routines,
+	//which are never reached because every lookup on it fails
+	uint32_t constOrder = (ndim ? order[0] : 0);
 	for (unsigned int j = 1; j < ndim; j++) {
 		if (order[j] != constOrder) {
 			constOrder = 0;
